@@ -9,7 +9,9 @@ use crate::core::coordinate_transforms::{
 };
 use crate::core::hilbert::{ij_to_s, s_to_anchor};
 use crate::core::origin::{find_nearest_origin, quintant_to_segment, segment_to_quintant};
-use crate::core::serialization::{deserialize, serialize, FIRST_HILBERT_RESOLUTION, WORLD_CELL};
+use crate::core::serialization::{
+    deserialize, serialize, FIRST_HILBERT_RESOLUTION, MAX_RESOLUTION, WORLD_CELL,
+};
 use crate::core::tiling::{
     get_face_vertices, get_pentagon_vertices, get_quintant_polar, get_quintant_vertices,
 };
@@ -23,6 +25,13 @@ pub fn lonlat_to_cell(lonlat: LonLat, resolution: i32) -> Result<u64, String> {
     // Resolution -1 represents WORLD_CELL, which covers the entire world
     if resolution == -1 {
         return Ok(WORLD_CELL);
+    }
+
+    if !(-1..MAX_RESOLUTION).contains(&resolution) {
+        return Err(format!(
+            "Resolution ({}) is outside the supported range",
+            resolution
+        ));
     }
 
     if resolution < FIRST_HILBERT_RESOLUTION {
